@@ -645,3 +645,40 @@ def rule_fancy_increment(prog, C, rule):
     if not hits:
         C.add(rule, PROVED, "ffuncs/xfuncs", "no in-place operation through an integer-array index in %d fill methods" % n, "accumulation uses bincount / per-cell stores")
     return n
+
+
+# ------------------------------------------------------------------------------ flattened region views
+def rule_flat_views(prog, C, rule):
+    """xfunc.flat_regions hands the fill methods C-order reshape VIEWS of the regions it was given: what fill writes
+    lands in the cube's own arrays, cell i of the flat view being cell i of the strided coordinates."""
+    n = 0
+    ci = prog.cls("xfuncs", "xfunc")
+    fi = ci.methods.get("flat_regions")
+    if fi is None:
+        C.add(rule, UNDECIDED, "xfuncs:xfunc.flat_regions", "flattened views", "method not found (anchor vanished)")
+        return 0
+    I = Interp(prog, hints.param_types_for("xfuncs"), hints.FIELD_TYPES, inline=False)
+    fr = I.run(fi)
+    regions = tm.param(fi.params()[1])
+    for v, g in fr.returns:
+        for a in tm.alts(v):
+            n += 1
+            where = "%s" % fi.fq
+            cons = "flat_regions returns %s" % tm.show(a)[:50]
+            if not (a.op == "comp" and a.args[0] in ("list", "gen") and a.args[1].op == "call" and tm.callee_name(a.args[1]) == ".reshape"):
+                C.add(rule, UNDECIDED, where, cons, "not a comprehension of part.reshape(...)")
+                continue
+            call = a.args[1]
+            recv_ = call.args[0].args[0]
+            is_part = recv_.op == "iter" and recv_.args[0] == regions
+            order = dict(call.args[2]).get("order") if len(call.args) > 2 else None
+            if not is_part:
+                C.add(rule, UNDECIDED, where, cons, "the reshaped object is not an element of the regions argument")
+            elif order is None or tm.is_const(order, "C"):
+                C.add(rule, PROVED, where, cons, "C-order reshape of a block selected by integer indices on leading axes: a view, cell order = strided coordinate order")
+            elif tm.is_const(order, "F"):
+                C.add(rule, VIOLATED, where, cons, "a Fortran-order reshape of a C-contiguous block is a COPY laid out differently: what fill() writes never reaches the cube's regions (and cell i no longer matches strided coordinate i)",
+                      {"inputs": "any xcube with at least one dimension: every aggregate comes back as its initial (missing) values"})
+            else:
+                C.add(rule, UNDECIDED, where, cons, "reshape order %s: cannot decide that the result is a view in cell order" % tm.show(order))
+    return n
